@@ -134,7 +134,7 @@ def denote(ast, scope=_origin):
 
 
 def oracle(ast) -> Sem:
-    return denote(ast)(pg.INPUT_APPLY, pg.INPUT_TRAIN, pg.INPUT_LABEL)
+    return denote(pg.to_library(ast))(pg.INPUT_APPLY, pg.INPUT_TRAIN, pg.INPUT_LABEL)
 
 
 # --------------------------------------------------------------------------------------------------
@@ -223,6 +223,17 @@ CORPUS = [
     ['seq', ['stack', [['wrap', NONE, [5, True], [5, True]]], 2, 1, 2, 3, 4], ['stack', [['wrap', NONE, [15, True], [15, True]]], 2, 11, 12, 13, 14]],
 ]
 
+# operators written against the public composition API (docs/workflow/operator.rst), alone and mixed with the library
+CORPUS_API = [
+    ['custom', [1, True]],
+    ['custom', [1, False]],
+    ['seq', ['custom', [1, True]], ['custom', [2, True]]],
+    ['seq', ['wrap', [1, True], NONE, NONE], ['seq', ['custom', [2, True]], ['wrap', NONE, [3, True], [3, True]]]],
+    ['seq', ['seq', ['wrap', [1, True], NONE, NONE], ['custom', [2, True]]], ['mapreduce', [[3, True], [4, False]], 5]],
+    ['seq', ['custom', [1, True]], ['stack', [['custom', [6, True]]], 2, 2, 3, 4, 5]],
+    ['stack', [['seq', ['custom', [5, False]], ['wrap', NONE, [6, True], [6, True]]]], 2, 1, 2, 3, 4],
+]
+
 # malformed stream: operators that refuse to compose (model: Err, implementation: exception class)
 MALFORMED = [
     (['debug', [1, True], [2, False]], 'TopologyError', 'statelessTrain'),
@@ -236,7 +247,8 @@ class C03(fw.Check):
     DRIVER = 'drv_c03'
     RULE = ('pipeline expressions over the real operator library (wrap mapper/apply/train/label operators and their '
             'combinations incl. builders shared between slots, payload.MapReduce, payload.Dump, ensemble.FullStack with 2-3 '
-            'folds and 1-2 bases as scope-wrapping operator) x stateful/stateless symbolic actors x parenthesisations: '
+            'folds and 1-2 bases as scope-wrapping operator, and a mapper written directly against the public composition API '
+            'as documented in docs/workflow/operator.rst) x stateful/stateless symbolic actors x parenthesisations: '
             'hand-picked corpus, every expression up to 2 (quick) / 4 (thorough) leaves over the basic wrap alphabet and up to 3 '
             'over the extended one, all parenthesisations of random 5-leaf sequences, random expressions up to 12 leaves; '
             'each with a stateful probe mapper appended (reveals the final train features and labels) and a third of them '
@@ -287,8 +299,16 @@ class C03(fw.Check):
             seq[rng.randrange(n)] = ['stack', bases, rng.choice([2, 2, 3]), 0, 0, 0, 0]
             out.extend(pg.retag(t) for t in pg.parenthesisations(seq))
         # random larger ones
-        for _ in range(self.n(120, 2500)):
+        for _ in range(self.n(120, 2000)):
             out.append(gen.expr(rng.randint(2, 12)))
+        # operators written against the public API, alone and mixed with library operators in every parenthesisation
+        out.extend(pg.retag(c) for c in CORPUS_API)
+        customs = [['custom', [0, True]], ['custom', [0, False]]]
+        for _ in range(self.n(6, 120)):
+            n = rng.choice([2, 3, 3, 4])
+            seq = [rng.choice(customs) if rng.random() < 0.5 else rng.choice(extended) for _ in range(n)]
+            seq[rng.randrange(n)] = rng.choice(customs)
+            out.extend(pg.retag(t) for t in pg.parenthesisations(seq))
         cases = []
         for ast in out:
             key = sexp.dumps(ast)
@@ -296,7 +316,8 @@ class C03(fw.Check):
                 continue
             seen.add(key)
             cases.append(with_probe(ast))
-            if rng.random() < 0.34:
+            # a third also bare (the exhaustive 4-leaf sweep of the thorough tier only with the probe: budget)
+            if rng.random() < 0.34 and (self.quick or pg.leaves(ast) != 4 or pg.kinds(ast) != {'wrap'}):
                 cases.append(ast)
         return cases
 
@@ -342,7 +363,8 @@ class C03(fw.Check):
                     self.diverge(f'{part} of the expanded graphs', case, real[part][:600] if part != 'states' else real[part][:6],
                                  mrun[part][:600] if part != 'states' else mrun[part][:6])
                     ok = False
-            if real['indep']['groups1'] != mrun['groups']:
+            # (an API-level operator has no orphan prototype worker: its group sizes differ from the library operator's)
+            if 'custom' not in pg.kinds(ast) and real['indep']['groups1'] != mrun['groups']:
                 self.diverge('group structure of one expansion (tag, members, trained)', case, real['indep']['groups1'], mrun['groups'])
                 ok = False
             # Lean denotation <-> Lean graph evaluation (what C03_coherence states), incl. the label path
@@ -388,8 +410,8 @@ class C03(fw.Check):
         reals = pg.run_batch(impl, kept)
         lines = []
         for ast in kept:
-            lines.append(sexp.dumps(['run', ast]))
-            lines.append(sexp.dumps(['denote', ast]))
+            lines.append(sexp.dumps(['run', pg.to_library(ast)]))
+            lines.append(sexp.dumps(['denote', pg.to_library(ast)]))
         answers = self.model(lines)
         verdicts = []
         for i, (ast, spec, real) in enumerate(zip(kept, specs, reals)):
@@ -415,8 +437,27 @@ class C03(fw.Check):
             if got != exc or m != ['error', err]:
                 self.diverge('refused composition', {'expr': ast}, got, m)
 
+    def _selftest(self):
+        """Planted divergence: the comparator must notice when the model / oracle are given another expression than
+        the implementation (guards against a vacuous comparison)."""
+        ast = with_probe(['seq', ['wrap', [1, True], NONE, NONE], ['wrap', NONE, [2, True], [2, True]]])
+        planted = [
+            with_probe(['seq', ['wrap', [1, True], NONE, NONE], ['wrap', NONE, [2, False], [2, False]]]),  # stateless mapper
+            with_probe(['seq', ['wrap', NONE, [2, True], [2, True]], ['wrap', [1, True], NONE, NONE]]),  # swapped order
+        ]
+        with pg.isolated():
+            real = impl(ast)
+        for other in planted:
+            answers = self.model([sexp.dumps(['run', other]), sexp.dumps(['denote', other])])
+            probe = C03(self.tier, self.seed)
+            probe._compare(ast, self._oracle_canon(other), real, self._model_fields(answers[0]), self._model_fields(answers[1]))
+            if not probe.divergences or not probe.violations:
+                raise fw.MachineryError('planted divergence not detected by the comparator: ' + sexp.dumps(other))
+        self.notes.append('planted-divergence self-test: 2 wrong model/oracle expressions flagged by the comparator')
+
     def correspondence(self):
         pg.quiet()
+        self._selftest()
         cases = self._cases()
         self._evaluate(cases)
         self._malformed()
